@@ -879,7 +879,9 @@ def run(ctx: core.Ctx):
             ctx.broken("finding-without-refutation", f"{sig}: observed on the implementation, but its refutation no longer "
                        "compiles against the regenerated facts")
         if not holds and not seen_dev:
-            ctx.log(f"known finding {sig} no longer reproduces (neither on the model nor on the implementation): fixed?")
+            st = {k.get("signature"): k.get("status") for k in ctx.known}.get(sig)
+            ctx.log(f"{sig}: not reproduced, neither on the model nor on the implementation "
+                    + ("(listed as fixed: stays fixed)" if st == "fixed" else "(listed as known: fixed in the source?)"))
     ctx.coverage["refuted_on_model"] = refuted
     if model_fail:
         ctx.broken("T3:impl-vs-model", f"{len(model_fail)} histories where the implementation differs from the model inside the "
